@@ -58,6 +58,9 @@ def build_cases(ctx, r):
         if [m for m in ml if m["name"] == "none"][0]["allowed"] != ["ok"]:
             raise Infra("specification does not give <<obj, nil>> for the unmutated template %s" % key)
         out.append({"tpl": g["tpl"], "muts": ml})
+    used = {m["name"] for g in out for m in g["muts"]}
+    if used != set(muts):
+        raise Infra("mutations of the table never applicable to a template (vacuous rows): %s" % sorted(set(muts) - used))
     return out, ncases
 
 
